@@ -3,6 +3,7 @@ import Dashu.Model.Mem.Pool
 import Dashu.Model.Mem.Arith
 import Dashu.Model.Mem.Arith2
 import Dashu.Model.Mem.Arith3
+import Dashu.Model.Mem.Arith4
 import Dashu.Model.Mem.Memory
 /-
   Driver of group `mem` (C17).
@@ -303,7 +304,7 @@ def arith (W : Nat) (op form a b : String) : Option String := do
   -- `sqr::MAX_LEN_SIMPLE`, regenerated from integer/src/sqr/mod.rs (Tie A)
   let sqS := Dashu.Gen.sqr_MAX_LEN_SIMPLE
   let signedB := op = "iadd" || op = "isub" || op = "imul" || op = "idiv" || op = "irem" || op = "idivrem" ||
-    op = "iand" || op = "ior" || op = "ixor"
+    op = "iand" || op = "ior" || op = "ixor" || op = "igcd"
   let signed := signedB || op = "ishl" || op = "ishr" || op = "ipow"
   let xi ← (if signed then parseInt a else (fun n : Nat => (n : Int)) <$> parseNat a)
   let x := xi.natAbs
@@ -348,8 +349,15 @@ def arith (W : Nat) (op form a b : String) : Option String := do
       let k ← parseDecNat b
       let fn : BitFn := if op = "setbit" then .setBit else if op = "clearbit" then .clearBit
         else if op = "clearhigh" then .clearHighBits else if op = "splitbits" then .splitBits else .nextPowerOfTwo
-      if form = "v" then pure (fragBitFn W fn xs k, none) else none
+      if form = "v" then pure (fragBitFn W mx fn xs k, none) else none
     | "sqrtrem" => if form = "r" then pure (fragSqrtRem W sqS xs, none) else none
+    | "sqrt" => if form = "r" then pure (fragSqrt W sqS xs, none) else none
+    | "gcd" => do let y ← parseNat b; pure (fragGcd W (← parseForm form) xs (natWords W y), some (natWords W y))
+    | "gcdext" => do let y ← parseNat b; pure (fragGcdExt W (← parseForm form) xs (natWords W y), some (natWords W y))
+    | "igcd" => do
+      let yi ← parseInt b
+      let ys := natWords W yi.natAbs
+      pure (fragSignedGcd W (← parseForm form) xs ys, some ys)
     | "sqr" => if form = "r" then pure (fragSqr W sqS xs, none) else none
     | "frombytes" => do
       let k ← parseDecNat b
@@ -378,7 +386,8 @@ def arith (W : Nat) (op form a b : String) : Option String := do
     | .ok (st, evs2) =>
       let head := match fr.panic with
         | some k => "!" ++ k.name
-        | none => slotStr (st.P fr.res) ++ (match fr.res2 with | some r2 => "&" ++ slotStr (st.P r2) | none => "")
+        | none => slotStr (st.P fr.res) ++ (match fr.res2 with | some r2 => "&" ++ slotStr (st.P r2) | none => "") ++
+          (match fr.res3 with | some r3 => "&" ++ slotStr (st.P r3) | none => "")
       let o := run W mx (dropAll R) st.P st.n
       let st := applyEvs { st with n := o.next } o.evs
       let live := st.L.liveCount st.n
